@@ -10,6 +10,7 @@ mod iter;
 mod tuples;
 mod own;
 mod q;
+mod sym;
 mod alg;
 mod mat;
 mod xform;
